@@ -115,6 +115,9 @@ class P:
                 self.accept(";")
                 out.append(("expr", e)); continue
             e = self.expr()
+            if self.peek()[1] in ("=", "-=", "+="):
+                op = self.next()[1]; rhs = self.expr(); self.expect(";")
+                out.append(("assign", e, op, rhs)); continue
             if self.accept(";"): out.append(("expr", e))
             elif self.peek()[1] in ("}",) or self.peek()[0] == "eof": out.append(("tail", e))
             else: raise KernelError("unexpected token %r after expression" % self.peek()[1])
@@ -215,8 +218,11 @@ class P:
 # ------------------------------------------------------------------------------------------ Lean emission
 class Emit:
     """translate a parsed body into a Lean `do` block in `Res`. env: {rust path -> lean term} for the free inputs."""
-    def __init__(self, env, effects, bounds=None):
+    def __init__(self, env, effects, bounds=None, state=None, ignore=None, exports=None):
         self.env = dict(env); self.effects = effects; self.bounds = bounds or {}; self.tmp = 0
+        self.state = state or {}        # assignable rust paths -> lean variable (re-bound by `let` on assignment)
+        self.ignore = set(ignore or [])  # names of non-integer locals (raw pointers, references)
+        self.exports = exports          # struct literal at the tail: which fields the kernel reports
     def fresh(self):
         self.tmp += 1; return "t%d" % self.tmp
     LEAN_KW = {"end", "have", "show", "from", "at", "fun", "do", "then", "else", "with", "in", "let", "if", "match", "open",
@@ -239,6 +245,7 @@ class Emit:
         if k == "not": return "(!(%s))" % self.cond(e[1], pre)
         if k == "field":
             key = self.path(e)
+            if key in self.state: return self.state[key]
             if key in self.env: return self.env[key]
             raise KernelError("unknown field access %s" % key)
         if k == "call":
@@ -257,6 +264,8 @@ class Emit:
         if k == "fcall":
             if e[1] in ("cmp::max", "cmp::min", "core::cmp::max", "core::cmp::min", "max", "min"):
                 return "(%s %s %s)" % (e[1].split("::")[-1], par(self.pure(e[2][0], pre)), par(self.pure(e[2][1], pre)))
+            if e[1].split("::")[-1] in ("element_ptr_at", "element_mut_ptr_at") and len(e[2]) == 2:
+                return self.pure(e[2][1], pre)      # an element pointer is its slot number
             raise KernelError("unsupported call %s()" % e[1])
         if k == "bin":
             op = e[1]
@@ -330,6 +339,15 @@ class Emit:
         """-> lean Res expression; `tail(e)` renders a value-producing tail expression"""
         if not stmts: return "pure KEff.none"
         s, rest = stmts[0], stmts[1:]
+        if s[0] == "let" and s[1] in self.ignore:
+            return self.stmts(rest, tail)
+        if s[0] == "assign":
+            key = self.path(s[1])
+            if key not in self.state: raise KernelError("assignment to %s" % (key,))
+            pre = []; v = self.pure(s[3], pre); cur = self.state[key]
+            if s[2] == "-=": v = "(%s - %s)" % (cur, v)
+            elif s[2] == "+=": v = "(%s + %s)" % (cur, v)
+            return self.wrap(pre + ["let %s := %s" % (cur, v)], self.stmts(rest, tail))
         if s[0] == "let":
             pre = []; v = self.pure(s[2], pre)
             nm = self.name(s[1]); self.env.pop(s[1], None)
@@ -354,6 +372,18 @@ class Emit:
                 # an `if` used as a statement: both branches end the kernel or fall through to `rest`
                 thenb = self.branch(e[2], rest, tail); elseb = self.branch(e[3] or [], rest, tail)
                 return self.wrap(pre, "(if %s then %s else %s)" % (c, thenb, elseb))
+            if e[0] == "struct" and s[0] == "tail" and self.exports is not None:
+                pre = []; vals = []
+                for ex in self.exports:
+                    if "." in ex:       # argument k of a constructor call stored in a field, e.g. iter.1 of `iter: Iter::new(p, a, b)`
+                        f, k = ex.split("."); fe = e[2].get(f)
+                        if fe is None or fe[0] != "fcall": raise KernelError("field %s is not a constructor call" % f)
+                        vals.append(par(self.pure(fe[2][int(k)], pre)))
+                    else:
+                        if ex not in e[2]: raise KernelError("field %s missing in the struct literal" % ex)
+                        vals.append(par(self.pure(e[2][ex], pre)))
+                lenv = list(self.state.values())[0] if self.state else "0"
+                return self.wrap(pre, "pure (KEff.made %s [%s])" % (lenv, ", ".join(vals)))
             if e[0] == "struct" and s[0] == "tail":
                 if "size" in e[2]:
                     pre = []; v = self.pure(e[2]["size"], pre)
@@ -413,6 +443,19 @@ KERNELS = [
     ("stackn_size", "mem/stack_n.rs", "size", None, "(N : Nat)", {"N": "N"}, {}, {}),
     ("iter_len", "iter.rs", "len", None, "(index end_ : Nat)", {"self.end": "end_", "self.index": "index"}, {}, {}),
 ]
+# constructors of removal handles and range iterators: where the length is lowered before any user code can run
+CTORS = [
+    # (lean name, file, fn, marker, params, env, state, ignore, exports)
+    ("pop_new", "ops/pop.rs", "new", None, "(len : Nat)", {}, {"any_vec_raw.len": "len"}, ["any_vec_raw"], []),
+    ("remove_new", "ops/remove.rs", "new", None, "(len index : Nat)", {"index": "index"}, {"any_vec_raw.len": "len"}, ["any_vec_raw"],
+        ["index", "last_index"]),
+    ("swap_remove_new", "ops/swap_remove.rs", "new", None, "(len index : Nat)", {"index": "index"}, {"any_vec_raw.len": "len"}, ["any_vec_raw"],
+        ["element", "last_index"]),
+    ("drain_new", "ops/drain.rs", "new", None, "(len start end_ : Nat)", {"start": "start", "end": "end_"}, {"any_vec_raw.len": "len"},
+        ["any_vec_raw"], ["iter.1", "iter.2", "start", "end", "original_len"]),
+    ("splice_new", "ops/splice.rs", "new", None, "(len start end_ : Nat)", {"start": "start", "end": "end_"}, {"any_vec_raw.len": "len"},
+        ["any_vec_raw"], ["iter.1", "iter.2", "start", "end", "original_len"]),
+]
 
 def translate(repo_src):
     """-> (lean text, {kernel: error}) ; kernels that cannot be translated are emitted as `Res.ub "<why>"` stubs"""
@@ -420,7 +463,9 @@ def translate(repo_src):
            "import AnyVecModel.Model.Ops", "namespace AnyVec.Gen.Kernel", "open AnyVec AnyVec.World", "",
            "/-- what a kernel asks of the storage backend / returns -/",
            "inductive KEff where", "  | none", "  | expand (n : Nat)", "  | expandExact (n : Nat)", "  | resize (n : Nat)",
-           "  | ret (v : Nat)", "  | ret2 (a b : Nat)", "  deriving Repr, DecidableEq", ""]
+           "  | ret (v : Nat)", "  | ret2 (a b : Nat)",
+           "  /-- a constructor ran: the vector's `len` afterwards and the integer fields of the value it built -/",
+           "  | made (len : Nat) (fields : List Nat)", "  deriving Repr, DecidableEq", ""]
     errors = {}
     for (lname, f, fn, marker, params, env, effects, bounds) in KERNELS:
         try:
@@ -436,6 +481,21 @@ def translate(repo_src):
             errors[lname] = "translator failure: %r" % (ex,)
             lean = 'Res.ub "kernel %s: translator failure"' % lname
         lean = lean.replace("KEff.expand 1 |>.id", "KEff.expand 1")
+        out.append("/-- `%s` in src/%s -/" % (fn, f))
+        out.append("def %s %s : Res KEff :=\n  %s\n" % (lname, params, lean))
+    for (lname, f, fn, marker, params, env, state, ignore, exports) in CTORS:
+        try:
+            src = strip_comments(open(os.path.join(repo_src, f)).read())
+            body = find_fn(src, fn, marker)
+            ast = P(tokenize(body)).block()
+            em = Emit(env, {}, {}, state=state, ignore=ignore, exports=exports)
+            lean = em.stmts(ast, lambda e: (_ for _ in ()).throw(KernelError("constructor does not end in a struct literal")))
+        except KernelError as ex:
+            errors[lname] = str(ex)
+            lean = 'Res.ub "kernel %s: %s"' % (lname, str(ex).replace('"', "'"))
+        except Exception as ex:
+            errors[lname] = "translator failure: %r" % (ex,)
+            lean = 'Res.ub "kernel %s: translator failure"' % lname
         out.append("/-- `%s` in src/%s -/" % (fn, f))
         out.append("def %s %s : Res KEff :=\n  %s\n" % (lname, params, lean))
     out.append("end AnyVec.Gen.Kernel\n")
